@@ -1,3 +1,4 @@
 import MpdSpec.Names
 import MpdSpec.Tokenizer
 import MpdSpec.Grammar
+import MpdSpec.FrameSpec
